@@ -34,6 +34,8 @@ NORMALISERS = {'os.path.normpath', 'os.path.abspath', 'posixpath.normpath'}
 ALSO = {'C02': {'R02.2': 'the moved entry keeps modes and mtimes when the move has to copy'},
  'C04': {'R04.6': 'a .trashinfo released by a process that did not reserve it leaves another '
                   "entry's payload without info"},
+ 'C05': {'R05.3': 'the payload is renamed within one volume (after resolving links): a copy '
+                  'that fails half way leaves payload in two trash directories'},
  'C17': {'R17.3': 'a failed write/close must not leave a stray .trashinfo'}}
 
 def strips_trailing_sep(chain, term, is_arg):
